@@ -17,6 +17,9 @@ broken rather than guessing (DESIGN.md 4.1):
   render_suite                WHICH of the two known column walks it is: unbounded pointer (as shipped before the
                               repair of defect D9) or bounded by the number of invocations
                               (findings/D9_bound.diff, /repo 4acd4e2)                      -> walk_is_bounded
+                              and, for the bounded walk, the index arithmetic itself: what is added to
+                              ri + VECTOR_LENGTH for `end`, whether the loop tests ri < end or ri <= end, whether
+                              the break tests == or >=               -> walk_end_extra / walk_end_strict / walk_break_eq
                               The model follows whichever is found; coq/theories/Html/HtmlTie.v demands the
                               repaired forms, so the full theorems C14_rate / C14_no_oob stop compiling on a revert.
   file names                  step.csv, end, dmesg, comment, diff, src.diff.*, tags/cvs, attic, index.html, cvsweb URL
@@ -73,10 +76,14 @@ SUITE_LINK = ('size_t i; HTML_NODE(html, "td") { const char *href; href = cvsweb
               'for (i = 0; i < VECTOR_LENGTH(runs); i++) { const struct run *run = &runs[i]; ')
 WALK_ORIG = (SUITE_HEAD + SUITE_LINK +
              'for (; ri->time > run->time; ri++) { HTML_NODE(r->html, "td") { } } ri++; render_run(r, run); } }')
-WALK_BOUNDED = (SUITE_HEAD +
-                'const struct regress_invocation *end = ri + VECTOR_LENGTH(r->invocations); ' + SUITE_LINK +
-                'for (; ri < end && ri->time > run->time; ri++) { HTML_NODE(r->html, "td") { } } '
-                'if (ri == end) break; ri++; render_run(r, run); } }')
+# the bounded walk, with the three places where the bound can be off by one left open: they become the
+# constants walk_end_extra / walk_end_strict / walk_break_eq of the model's index arithmetic (HtmlDefs.walk_ix)
+WALK_BOUNDED = re.compile(
+    re.escape(SUITE_HEAD) +
+    r'const struct regress_invocation \*end = ri \+ VECTOR_LENGTH\(r->invocations\)(?: (?P<sign>[+-]) (?P<extra>\d+))?; ' +
+    re.escape(SUITE_LINK) +
+    r'for \(; ri (?P<lt><=?) end && ri->time > run->time; ri\+\+\) \{ HTML_NODE\(r->html, "td"\) \{ \} \} '
+    r'if \(ri (?P<brk>==|>=) end\) break; ri\+\+; render_run\(r, run\); \} \}$')
 
 
 def generate(repo):
@@ -143,10 +150,15 @@ def generate(repo):
         raise ValueError('regress-html.c render_rate: body matches neither the float form nor the integer form: %r' % rr)
     # ---- render_suite: which walk
     rs = norm(func_body(src, 'render_suite'))
+    extra, strict, brk_eq = 0, True, True
+    mb = WALK_BOUNDED.match(rs)
     if rs == WALK_ORIG:
         bounded = False
-    elif rs == WALK_BOUNDED:
+    elif mb:
         bounded = True
+        extra = int(mb.group('extra') or 0) * (-1 if mb.group('sign') == '-' else 1)
+        strict = mb.group('lt') == '<'
+        brk_eq = mb.group('brk') == '=='
     else:
         raise ValueError('regress-html.c render_suite: body matches neither the unbounded nor the bounded column walk: %r' % rs)
     if 'VECTOR_SORT(r->invocations, regress_invocation_cmp);' not in norm(func_body(src, 'regress_html_render')):
@@ -193,7 +205,12 @@ def generate(repo):
            '', '(* render_rate: %s *)' % ('integer arithmetic' if rate_int else 'float arithmetic, truncated'),
            'Definition rate_is_integer : bool := %s.' % ('true' if rate_int else 'false'),
            '', '(* render_suite: %s *)' % ('column pointer bounded by the number of invocations' if bounded else 'column pointer not bounded'),
-           'Definition walk_is_bounded : bool := %s.' % ('true' if bounded else 'false'), '']
+           'Definition walk_is_bounded : bool := %s.' % ('true' if bounded else 'false'),
+           '(* end = ri + VECTOR_LENGTH(r->invocations) + walk_end_extra; loop test ri < end (strict) or ri <= end; '
+           'break test ri == end or ri >= end *)',
+           'Definition walk_end_extra : Z := (%d)%%Z.' % extra,
+           'Definition walk_end_strict : bool := %s.' % ('true' if strict else 'false'),
+           'Definition walk_break_eq : bool := %s.' % ('true' if brk_eq else 'false'), '']
     for k in sorted(names):
         v = names[k]
         if k == 'patch_glob':
